@@ -10,7 +10,7 @@ request  `F<v> <EmfCfg> | <GenEntry> | <trailer> [| <GenEntry> | <trailer>]*`
 reply    per step `<res> <nbytes> <lines> j<0|1> f<0|1>`, steps joined by ` | `:
    res = `ok` | `io` | `val:<kind*count,…>` (sorted); lines = `*` for `io`, else the sorted encodings of
    the complete lines (hex when <= 2048 bytes, `#<len>:<fnv1a64>` otherwise), `-` when none;
-   j = every line is accepted by `Json.accepts`; f = every float text of `ft` is a JSON number after
+   j = every line is accepted by `Json.accepts` (always 1 for `io`); f = every float text of `ft` is a JSON number after
    stripping `.0`.
 request  `J <hex>` → `accept` | `reject` (`Json.accepts`).
 -/
@@ -202,7 +202,9 @@ def observable (r : Result) (out : Out) (ft : List (String × Option Bytes)) : S
   let ls := match r with
     | .io => "*"
     | _ => if lines.isEmpty then "-" else ",".intercalate (sortStrings (lines.map encLine))
-  let j := lines.all accepts
+  let j := match r with
+    | .io => true      -- the accepted bytes end in a torn record: not judged
+    | _ => lines.all accepts
   s!"{res} {out.bytes.length} {ls} j{if j then 1 else 0} f{if floatLaw ft then 1 else 0}"
 
 def runSteps (c : Consts) (mult : Option Nat) : State → List String → List String → Option (List String)
